@@ -417,6 +417,22 @@ pub fn read_refcount(img: &dyn Img, rb_off: u64, idx: u64, order: u32) -> u64 {
     }
 }
 
+pub fn refcount_in_block(block: &[u8], idx: u64, order: u32) -> u64 {
+    let bits = 1u64 << order;
+    if bits >= 8 {
+        let bytes = (bits / 8) as usize;
+        let o = idx as usize * bytes;
+        let mut v = 0u64;
+        for x in &block[o..o + bytes] {
+            v = (v << 8) | *x as u64;
+        }
+        v
+    } else {
+        let bitpos = idx * bits;
+        ((block[(bitpos / 8) as usize] as u64) >> (bitpos % 8)) & ((1 << bits) - 1)
+    }
+}
+
 pub fn write_refcount(block: &mut [u8], idx: u64, order: u32, val: u64) {
     let bits = 1u64 << order;
     if bits >= 8 {
@@ -535,8 +551,15 @@ pub fn check_walk(img: &dyn Img, w: &Walk, exact: bool, v: &mut Verdict) {
         if block.iter().all(|b| *b == 0) {
             continue;
         }
+        let bits = h.refcount_bits();
         for idx in 0..rbe {
-            let stored = read_refcount(&block, 0, idx, h.refcount_order);
+            // fast skip over zero bytes
+            if bits < 8 {
+                if (idx * bits) % 8 == 0 && block[(idx * bits / 8) as usize] == 0 {
+                    continue;
+                }
+            }
+            let stored = refcount_in_block(&block, idx, h.refcount_order);
             if stored != 0 {
                 let cl = i as u64 * rbe + idx;
                 if !w.owners.contains_key(&cl) {
@@ -808,20 +831,29 @@ pub fn build(spec: &BuildSpec, rng: &mut Rng) -> Built {
             let raw = cluster_bytes(*base, cs);
             let level = 1 + (rng.below(9) as u8);
             let mut c = miniz_oxide::deflate::compress_to_vec(&raw, level);
-            // the descriptor can describe at most cs/512 sectors
-            if c.len() as u64 + 512 > cs {
-                // incompressible at this cluster size: should not happen with
-                // compressible ids, but keep the image valid
-                c.truncate(0);
+            // a compressed cluster must be smaller than a cluster (else it
+            // would be stored uncompressed); compressible ids always are
+            assert!((c.len() as u64) < cs, "compressible content did not compress");
+            if rng.below(4) == 0 {
+                // trailing garbage inside the last sector is legal: readers
+                // must stop at the end of the deflate stream
+                let pad = rng.below(8) as usize;
+                c.extend(std::iter::repeat(0xEE).take(pad));
+                if c.len() as u64 >= cs {
+                    c.truncate(cs as usize - 1);
+                }
             }
             comp.push((*g, c));
         }
     }
-    let comp_bytes: u64 = comp.iter().map(|(_, c)| c.len() as u64 + 64).sum();
+    // worst case per blob: its bytes, a gap of < 64, rounding to a sector
+    let comp_bytes: u64 = 512 + comp.iter().map(|(_, c)| c.len() as u64 + 64 + 512).sum::<u64>();
+    // a host cluster can be shared by at most (max refcount) compressed clusters
+    let max_ref: u64 = if order >= 6 { u64::MAX } else { (1u64 << (1u64 << order)) - 1 };
     let comp_clusters = if comp.is_empty() {
         0
     } else {
-        comp_bytes.div_ceil(cs) + 1
+        comp_bytes.div_ceil(cs) + 1 + (comp.len() as u64).div_ceil(max_ref.min(1 << 20)) * 2
     };
     let n_data = spec
         .guest
@@ -904,13 +936,24 @@ pub fn build(spec: &BuildSpec, rng: &mut Rng) -> Built {
     let mut cpos = comp_at * cs + if comp.is_empty() { 0 } else { rng.below(512) };
     let comp_end = (comp_at + comp_clusters) * cs;
     let mut comp_last_end = 0u64;
+    let mut comp_share: BTreeMap<u64, u64> = BTreeMap::new();
     for (g, c) in &comp {
         let l2 = l2bufs.get_mut(&(g / l2n)).unwrap();
-        if c.is_empty() {
-            continue;
+        // respect the refcount width: move to a fresh cluster when a cluster
+        // this blob would touch is already shared max_ref times
+        loop {
+            let first = cpos / cs;
+            let last = ((cpos + c.len() as u64 - 1) | 511) / cs;
+            if (first..=last).all(|k| comp_share.get(&k).copied().unwrap_or(0) < max_ref) {
+                break;
+            }
+            cpos = (cpos / cs + 1) * cs;
         }
         let off = cpos;
         let end = off + c.len() as u64;
+        for k in (off / cs)..=(((end - 1) | 511) / cs) {
+            *comp_share.entry(k).or_insert(0) += 1;
+        }
         assert!(end.div_ceil(512) * 512 <= comp_end);
         img[off as usize..end as usize].copy_from_slice(c);
         let nsect = ((end - 1) >> 9) - (off >> 9);
